@@ -45,6 +45,13 @@ validation guards (`if ..: raise`) in the header map builder are judged - member
 row while names are BOM-stripped is refuted; order checks where `<parent>.children` is filled (_children_rebuild): assigning
 the list per `itertools.groupby(rows, key=parent_id)` group over unsorted rows is refuted.
 
+Round 7 additions: the row loop of read_csv may live in a private generator (`for row in rows: ..; yield TaskRaw(..)`) consumed
+by list(..); `.predecessors` / `.children` may be filled through a local alias of the list; csv.reader over
+str.splitlines(keepends=True) is refuted (splitlines breaks at more characters than the file's line structure); a generic
+attribute copy that passes values through a numeric cast (builtin, a helper returning int/float(value), or its expanded
+conditional form) is refuted, str() is accepted, other wrappers are undecided; a custom column list read from a module level
+container that functions store into (cross-call cache) is refuted.
+
 Not decided: the csv module's quoting (trusted stdlib, default dialect only), a hand-rolled date parser with its own year
 pivot (undecided), custom attribute
 names that collide with Task members, tasks whose parent_id is dangling, numeric behaviour of float()/str().
@@ -252,6 +259,36 @@ def find_reader(ctx, o):
             bind = {p_: fx.x(a) for p_, a in b.items() if p_ != rowp[0]}
             return dict(func=hf, fx=fx_of(ctx, hf), reader=it, loop=fors[0], rowvar=rowp[0], ctor=inner[0], cfunc=f, cfx=fx,
                         bind=bind, helper=True)
+    if not ctors:
+        # .. or the whole row loop lives in a private generator `def g(rows, header): for row in rows: ..; yield TaskRaw(..)`
+        # consumed by read_csv (list(g(reader, header)))
+        for c in walk_no_nested(f.node):
+            hf = package_helper(ctx, f, c) if isinstance(c, ast.Call) else None
+            if hf is None or hf.module is not f.module or fx.enclosing_fors(c):
+                continue
+            inner = [x for x in walk_no_nested(hf.node) if is_ctor(x)]
+            ylds = [n for n in walk_no_nested(hf.node) if isinstance(n, (ast.Yield, ast.YieldFrom))]
+            b = bind_call(c, hf)
+            hfx = fx_of(ctx, hf)
+            if len(inner) != 1 or len(ylds) != 1 or not isinstance(ylds[0], ast.Yield) or b is None:
+                continue
+            yv = ylds[0].value
+            if not (yv is inner[0] or (isinstance(yv, ast.Name) and hfx.def_value(yv.id, yv) is inner[0])):
+                continue
+            fors = hfx.enclosing_fors(inner[0])
+            yfors = hfx.enclosing_fors(ylds[0])
+            if len(fors) != 1 or yfors != fors or not isinstance(fors[0].target, ast.Name) or not isinstance(fors[0].iter, ast.Name) \
+                    or fors[0].iter.id not in b or hfx.flow.defs_of(fors[0].iter.id) and any(d.kind != 'param' for d in hfx.flow.defs_of(fors[0].iter.id)):
+                continue
+            # the yield is reached once per row: no condition between the loop header and the yield
+            if hfx.cfg.conditions(hfx.cfg.node_containing(ylds[0])) != hfx.cfg.conditions(hfx.cfg.node_of(fors[0])):
+                continue
+            it = fx.x(b[fors[0].iter.id])
+            if not (isinstance(it, ast.Call) and _is_csv_call(f, it, 'reader')):
+                continue
+            bind = {p_: fx.x(a) for p_, a in b.items() if p_ != fors[0].iter.id}
+            return dict(func=hf, fx=hfx, reader=it, loop=fors[0], rowvar=fors[0].target.id, ctor=inner[0], cfunc=f, cfx=fx,
+                        bind=bind, helper=True, loop_in_func=True, gen_call=c)
     if len(ctors) != 1:
         o.undecided(f, f.node, 'read_csv TaskRaw(...)', f"expected exactly one TaskRaw(...) call in read_csv, found {len(ctors)}")
         return None
@@ -474,6 +511,39 @@ def _value_filtered_keys(e):
     return None
 
 
+def _cross_call_state(ctx, f, e):
+    """some value case of e reads a module level container that functions of the module store into (a cache that survives
+    the call) -> (name, the store, conditions of that case) else None"""
+    mod = f.module
+    consts = module_consts(mod)
+    top = {t.id for st in mod.tree.body if isinstance(st, (ast.Assign, ast.AnnAssign))
+           for t in (st.targets if isinstance(st, ast.Assign) else [st.target]) if isinstance(t, ast.Name)} - set(consts)
+    if not top:
+        return None
+    stores = {}
+    for q, fn in ctx.prog.funcs.items():
+        if fn.module is not mod:
+            continue
+        loc = fx_of(ctx, fn).locals
+        for n in ast.walk(fn.node):
+            tgt = None
+            if isinstance(n, ast.Assign):
+                tgt = [t.value for t in n.targets if isinstance(t, ast.Subscript) and isinstance(t.value, ast.Name)]
+            elif isinstance(n, ast.Call) and isinstance(n.func, ast.Attribute) and n.func.attr in ('setdefault', 'update', 'append', 'add', 'extend') \
+                    and isinstance(n.func.value, ast.Name):
+                tgt = [n.func.value]
+            for t in tgt or []:
+                if t.id in top and t.id not in loc:
+                    stores.setdefault(t.id, n)
+    if not stores:
+        return None
+    for conds, leaf in split_cases(ctx, f, e):
+        for n in ast.walk(leaf):
+            if isinstance(n, ast.Name) and isinstance(n.ctx, ast.Load) and n.id in stores:
+                return n.id, stores[n.id], conds
+    return None
+
+
 def _custom_columns(ctx, o, F, f, fx, hcall, rcall, hcustom, rcustom, rfor, rowvar, rowf):
     if hcustom is None and rcustom is None:
         o.refute(f, hcall, 'no custom columns', "neither the header nor the rows carry custom attribute columns")
@@ -564,6 +634,15 @@ def _custom_columns(ctx, o, F, f, fx, hcall, rcall, hcustom, rcustom, rfor, rowv
         conds = []
         for c in g1.ifs + g2.ifs:
             conds += split_conj(c, True)
+    elif isinstance(d, ast.Name) and d.id not in fx.locals:
+        st_ = _cross_call_state(ctx, f, d)
+        if st_ is not None:
+            o.refute(f, hcall, f"custom columns from module state {st_[0]}",
+                     f"the custom column list is the module level container `{st_[0]}`, filled by `{src(st_[1])[:50]}` and kept between calls: the columns "
+                     f"are those of an earlier export, not the attributes the tasks carry now (an attribute added since then gets no column and is lost)")
+        else:
+            o.undecided(f, hcall, hcustom, f"custom column list `{d.id}` is not a local of {f.name}")
+        return
     elif d is None or not isinstance(d, ast.Name):
         vf = _value_filtered_keys(_strip_list(g.iter))
         if vf is not None:
@@ -572,6 +651,14 @@ def _custom_columns(ctx, o, F, f, fx, hcall, rcall, hcustom, rcustom, rfor, rowv
                      f"a custom attribute gets a column only if `{src(flt)[:50]}`, a test on the ONE value `{dn}` records per attribute name (the discovery "
                      f"loop overwrites it task by task, the last task wins): whether the attribute's column exists for all tasks depends on a single "
                      f"task's value, so attributes with real values on other tasks are dropped from the file")
+            return
+        st_ = _cross_call_state(ctx, f, _strip_list(g.iter))
+        if st_ is not None:
+            gname, store, conds_ = st_
+            o.refute(f, hcall, f"custom columns from module state {gname}",
+                     f"the custom column list is read from the module level container `{gname}` when `{cond_text(conds_)[:70]}`; `{gname}` is filled by "
+                     f"`{src(store)[:50]}` during an earlier call, so the columns are those of a previous export, not the attributes the tasks carry now "
+                     f"(an attribute added since then gets no column and is lost)")
             return
         o.undecided(f, hcall, hcustom, "custom column list is not the key list of a dict filled by a discovery loop")
         return
@@ -659,7 +746,7 @@ def ob_reader_keys(ctx, o, F):
     stars = [k_.value for k_ in ctor.keywords if k_.arg is None]
     rest = []
     for sv in stars:
-        tk = _table_kwargs(f, fx, sv, rowvar, r['loop'] if not r['helper'] else None)
+        tk = _table_kwargs(f, fx, sv, rowvar, r['loop'] if _loop_in(r) else None)
         if tk is None:
             rest.append(sv)
         else:
@@ -680,7 +767,7 @@ def ob_reader_keys(ctx, o, F):
             full = cs0[0][1]
             break
     if full is not None:
-        for n in ast.walk(f.node if r['helper'] else loop):
+        for n in ast.walk(loop if _loop_in(r) else f.node):
             if isinstance(n, ast.Name) and isinstance(n.ctx, ast.Load) and n.id != rowvar and n.id not in keepn \
                     and fx.flow.node_of_expr(n) is not None and same(fx.x(n), full) and not same(n, full):
                 keepn.append(n.id)
@@ -737,6 +824,11 @@ def ob_reader_keys(ctx, o, F):
     _kwargs_fill(ctx, o, F, r, star, set(kw))
 
 
+def _loop_in(r) -> bool:
+    """the row loop lies inside r['func'] (read_csv itself or a row generator), not around a per-row helper call"""
+    return r.get('loop_in_func', not r['helper'])
+
+
 def _header_map(ctx, o, F, r, hexpr):
     """hexpr: the (expanded) header map expression used in cells"""
     f, fx, loop = r['cfunc'], r['cfx'], r['loop']
@@ -760,7 +852,7 @@ def _header_map(ctx, o, F, r, hexpr):
         return
     key, val, target, it, _ = triple
     # the row passed in must be next(<the same reader>) taken before the row loop
-    rd = fx.x(loop.iter)
+    rd = r['reader']
     ok_first = isinstance(first_row, ast.Call) and isinstance(first_row.func, ast.Name) and first_row.func.id == 'next' \
         and first_row.args and same(first_row.args[0], rd)
     if not ok_first:
@@ -1008,14 +1100,14 @@ def _kwargs_fill(ctx, o, F, r, star, consumed):
                 at = st
                 # the accumulator must be reset for every row
                 dv = fx.def_value(sx.id, ctor)
-                if dv is not None and is_empty_container(dv) and not r['helper'] and r['loop'] not in fx.enclosing_fors(dv) \
+                if dv is not None and is_empty_container(dv) and _loop_in(r) and r['loop'] not in fx.enclosing_fors(dv) \
                         and len(fx.flow.defs_of(sx.id)) == 1 and r['loop'] in fx.enclosing_fors(st) \
                         and not any(isinstance(n, ast.Call) and isinstance(n.func, ast.Attribute) and isinstance(n.func.value, ast.Name)
                                     and n.func.value.id == sx.id for n in walk_no_nested(f.node)):
                     # one dict created before the row loop and only ever written by `D[k] = ..`: TaskRaw(**D) copies its content per
                     # row, so this is the same as a fresh dict iff every key is stored again for every row (decided below)
                     shared = sx.id
-                elif dv is None or not is_empty_container(dv) or (not r['helper'] and r['loop'] not in fx.enclosing_fors(dv)):
+                elif dv is None or not is_empty_container(dv) or (_loop_in(r) and r['loop'] not in fx.enclosing_fors(dv)):
                     o.undecided(f, st, sx, f"`{sx.id}` is not re-initialised to an empty dict for every row")
                     return
     if key is None:
@@ -1635,8 +1727,10 @@ def _io_side(ctx, o, func, what, entry=None, bind=None):
         kind, why = _line_source(a0, fvar) if what == 'reader' else ('unknown', None)
         if kind == 'transformed':
             o.refute(func, cs, f"csv.reader over {src(a0)[:90]}",
-                     f"csv.reader is fed from `{src(a0)[:90]}` - the file's physical lines {why} - instead of the file object: a quoted text "
-                     f"field that spans several physical lines (embedded line breaks, empty lines) is altered before the csv parser sees it")
+                     f"csv.reader is fed from `{src(a0)[:90]}` - the file's physical lines {why.replace(' (SPLITLINES-BOUNDARIES)', '')} - instead of the file object: "
+                     + ("an unquoted text cell that contains one of these characters (the writer quotes only delimiter, quote, CR and LF) ends its "
+                        "record there, the row is split in two" if 'SPLITLINES-BOUNDARIES' in why else
+                        "a quoted text field that spans several physical lines (embedded line breaks, empty lines) is altered before the csv parser sees it"))
             return None
         if kind != 'file':
             o.undecided(func, cs, cs, f"csv.{what}(...) is not built on the file object returned by open(...)")
@@ -1689,6 +1783,10 @@ def _line_source(x, fvar):
         if isinstance(fn, ast.Attribute) and fn.attr in ('splitlines', 'split') and mentions(fn.value) and \
                 not any(k.arg == 'keepends' for k in x.keywords) and not (fn.attr == 'splitlines' and x.args):
             return 'transformed', f"re-split by .{fn.attr}() (line terminators removed)"
+        if isinstance(fn, ast.Attribute) and fn.attr == 'splitlines' and mentions(fn.value):
+            # keepends=True keeps the terminators, but str.splitlines() breaks at MORE characters than the file's line structure
+            return 'transformed', ("re-split by str.splitlines(), which also breaks at \\x0b, \\x0c, \\x1c-\\x1e, \\x85, \\u2028 and \\u2029 "
+                                   "(SPLITLINES-BOUNDARIES)")
         name = fn.id if isinstance(fn, ast.Name) else (fn.attr if isinstance(fn, ast.Attribute) and attr_path(fn.value) == 'itertools' else None)
         if name in ('dropwhile', 'takewhile', 'filterfalse') and len(x.args) == 2 and _line_source(x.args[1], fvar)[0] != 'unknown':
             return 'transformed', f"passed through {name}({src(x.args[0])[:40]}, ..)"
@@ -1914,6 +2012,37 @@ def _copy_hint(fn):
     return False
 
 
+_NUMERIC = ('int', 'float', 'round', 'abs', 'bool', 'Decimal', 'Fraction', 'complex')
+
+
+def _numeric_cast(ctx, caller, fname):
+    """fname is a numeric builtin, or a package function that returns <numeric builtin>(<its parameter>) on some path (the builtin
+    may be the variable of a loop over a literal tuple of them: `for cast in (int, float): return cast(value)`) -> text naming the
+    cast, else None"""
+    if fname in _NUMERIC:
+        return f"{fname}()"
+    tg = [t for t in ctx.typer.resolve_name_call(fname, caller) if t.kind in ('function', 'nested')]
+    if len(tg) != 1 or not tg[0].params:
+        return None
+    hf, fxh = tg[0], fx_of(ctx, tg[0])
+    for r_ in walk_no_nested(hf.node):
+        if not (isinstance(r_, ast.Return) and isinstance(r_.value, ast.Call) and isinstance(r_.value.func, ast.Name) and r_.value.args):
+            continue
+        c = r_.value
+        a0 = c.args[0]
+        while isinstance(a0, ast.Call) and isinstance(a0.func, ast.Attribute) and a0.func.attr in ('strip', 'replace') :
+            a0 = a0.func.value
+        if not (isinstance(a0, ast.Name) and a0.id in hf.params):
+            continue
+        if c.func.id in _NUMERIC:
+            return f"{c.func.id}()"
+        for lp in fxh.enclosing_fors(r_):
+            if isinstance(lp.target, ast.Name) and lp.target.id == c.func.id and isinstance(lp.iter, (ast.Tuple, ast.List)) \
+                    and lp.iter.elts and all(isinstance(e, ast.Name) and e.id in _NUMERIC for e in lp.iter.elts):
+                return f"{' / '.join(e.id for e in lp.iter.elts)}()"
+    return None
+
+
 def ob_fields(ctx, o, F):
     prog = ctx.prog
     t2r, r2w = prog.func(RAW + '.tasks_to_raws'), prog.func(RAW + '.raws_to_wbs')
@@ -1948,6 +2077,18 @@ def ob_fields(ctx, o, F):
     dcopy = dcopies[0] if dcopies else None
     F.acopy, F.dcopy = acopy, dcopy
     F.names = dict(tvar=tvar, rvar=rvar, rawname=rawname, taskname=taskname)
+    for fn, body, gc in ((t2r, t2r_b, acopy), (r2w, r2w_b, dcopy)):
+        if gc is None or gc.wrap is None:
+            continue
+        wname, wcall = gc.wrap
+        num = _numeric_cast(ctx, body, wname)
+        if num is not None:
+            o.refute(fn, wcall, f"custom value through {wname}(..) -> {num}",
+                     f"the generic attribute copy stores `{src(wcall)[:60]}`: `{wname}` turns the value into a number with {num}; custom attributes travel as "
+                     f"text and compare as strings, and number text that is not in canonical form ('02134', '1.10', '1e5', ' 7 ') does not come back "
+                     f"equal (expected the value as it is)")
+        else:
+            o.undecided(fn, wcall, wcall, f"the generic attribute copy passes every value through `{wname}(..)`, which the rule does not understand")
     for fn, gc in ((t2r, acopy), (r2w, dcopy)):
         for name, val, stmt in (gc.live if gc is not None else ()):
             o.refute(fn, stmt, f"{name} = {src(val)[:60]} computed once",
@@ -2425,6 +2566,9 @@ def ob_order(ctx, o, F):
                 and isinstance(rv.args[0], ast.Name) and rv.args[0].id in fx.acc:
             o.site(rd, rets[0], "read_csv returns raws_to_wbs(<rows in file order>)")
         elif isinstance(rv, ast.Call) and isinstance(rv.func, ast.Name) and rv.func.id == 'raws_to_wbs' and len(rv.args) == 1 \
+                and _is_row_generator_list(ctx, rv.args[0]):
+            o.site(rd, rets[0], "read_csv returns raws_to_wbs(list(<row generator>(reader, ..))): one TaskRaw per row in file order")
+        elif isinstance(rv, ast.Call) and isinstance(rv.func, ast.Name) and rv.func.id == 'raws_to_wbs' and len(rv.args) == 1 \
                 and _entry_body(ctx, 'read_csv')[2] is not None and same(rv.args[0], fx.x(_entry_body(ctx, 'read_csv')[2])) \
                 and _returns_accumulator(ctx, _entry_body(ctx, 'read_csv')[0]):
             o.site(rd, rets[0], f"read_csv returns raws_to_wbs({_entry_body(ctx, 'read_csv')[0].name}(..)), which returns the rows in file order")
@@ -2452,8 +2596,14 @@ def _pred_rebuild(ctx, o):
     fns = [fn for q, fn in prog.funcs.items() if fn.kind == 'function' and fn.module.name == RAW and fn.name != 'tasks_to_raws']
     found = False
 
-    def is_preds(e):
-        return isinstance(e, ast.Attribute) and e.attr == 'predecessors'
+    def is_preds(e, fx=None):
+        if isinstance(e, ast.Attribute) and e.attr == 'predecessors':
+            return True
+        # a local alias of the list: `preds = task.predecessors` ... `preds.append(x)`
+        if fx is not None and isinstance(e, ast.Name) and isinstance(e.ctx, ast.Load) and fx.flow.node_of_expr(e) is not None:
+            dv = fx.def_value(e.id, e)
+            return isinstance(dv, ast.Attribute) and dv.attr == 'predecessors'
+        return False
 
     def judge_comp(fn, node, comp, raw=None):
         """comp: expanded value assigned to / extended onto .predecessors (raw: as written, for messages)"""
@@ -2481,7 +2631,7 @@ def _pred_rebuild(ctx, o):
     for fn in fns:
         fx = fx_of(ctx, fn)
         for n in walk_no_nested(fn.node):
-            if isinstance(n, ast.Call) and isinstance(n.func, ast.Attribute) and n.func.attr in ('append', 'extend', 'insert') and is_preds(n.func.value) \
+            if isinstance(n, ast.Call) and isinstance(n.func, ast.Attribute) and n.func.attr in ('append', 'extend', 'insert') and is_preds(n.func.value, fx) \
                     and n.args:
                 found = True
                 if n.func.attr == 'insert':
@@ -2526,8 +2676,11 @@ def _children_rebuild(ctx, o):
     for fn in [fn for q, fn in prog.funcs.items() if fn.kind == 'function' and fn.module.name == RAW and fn.name != 'tasks_to_raws']:
         fx = fx_of(ctx, fn)
         for n in walk_no_nested(fn.node):
-            if isinstance(n, ast.Call) and isinstance(n.func, ast.Attribute) and n.func.attr == 'append' and isinstance(n.func.value, ast.Attribute) \
-                    and n.func.value.attr == 'children' and fx.enclosing_fors(n):
+            recv = n.func.value if isinstance(n, ast.Call) and isinstance(n.func, ast.Attribute) else None
+            if isinstance(recv, ast.Name) and fx.flow.node_of_expr(recv) is not None and isinstance(fx.def_value(recv.id, recv), ast.Attribute):
+                recv = fx.def_value(recv.id, recv)
+            if isinstance(n, ast.Call) and isinstance(n.func, ast.Attribute) and n.func.attr == 'append' and isinstance(recv, ast.Attribute) \
+                    and recv.attr == 'children' and fx.enclosing_fors(n):
                 o.site(fn, n, f"children attached one by one in row order: {src(n)[:50]}")
             elif isinstance(n, ast.Assign) and any(isinstance(t, ast.Attribute) and t.attr == 'children' for t in n.targets):
                 for lp in fx.enclosing_fors(n):
@@ -2543,6 +2696,27 @@ def _children_rebuild(ctx, o):
                         else:
                             o.undecided(fn, n, n, "children list assigned per groupby group: grouping not understood")
                         break
+
+
+class _Quiet:
+    """stand-in obligation for a second look-up whose diagnostics were already reported"""
+    def undecided(self, *a, **k): pass
+    def refute(self, *a, **k): pass
+    def site(self, *a, **k): pass
+
+
+def _is_row_generator_list(ctx, e) -> bool:
+    """e (expanded) is list(G(..)) / [x for x in G(..)] with G the row generator find_reader resolved (one yield per row, in order)"""
+    r = find_reader(ctx, _Quiet())
+    if r is None or 'gen_call' not in r:
+        return False
+    if isinstance(e, ast.Call) and isinstance(e.func, ast.Name) and e.func.id in ('list', 'tuple') and len(e.args) == 1 and not e.keywords:
+        e = e.args[0]
+    elif isinstance(e, ast.ListComp) and len(e.generators) == 1 and not e.generators[0].ifs and same(e.elt, e.generators[0].target):
+        e = e.generators[0].iter
+    else:
+        return False
+    return isinstance(e, ast.Call) and isinstance(e.func, ast.Name) and e.func.id == r['func'].name
 
 
 def _returns_accumulator(ctx, fn) -> bool:
